@@ -1,6 +1,6 @@
 """SKEL drivers: enumerate structural parameter boxes for the functions named in DESIGN section 4 (bounded, labelled [SKEL])."""
 import itertools
-from .skel import (SK, Py, Bag, Tok, DEF, Violation, Unsupported, Tally, run_case, pts, floats, shape_ok, STD_ABSTRACTED)
+from .skel import (explore, SK, Py, Bag, Tok, DEF, Ord, Violation, Unsupported, Tally, run_case, pts, floats, shape_ok, STD_ABSTRACTED)
 from .model import AnalysisError
 
 
@@ -239,3 +239,153 @@ def c15(m, run):
                 t.add((su, sv, sp), run1(m, '_tessellate.make_triangle_mesh', [pts(su * sv, 3), su, sv],
                                          {'vertex_spacing': sp, 'tessellate_func': Py(tslfunc, 'tsl')}, post, extra))
     finish(t, 'geomdl/_tessellate.py in _tessellate.make_triangle_mesh')
+
+
+# ====================================================================================== C03: order-type enumeration
+def compositions(total, maxpart):
+    if total == 0:
+        yield []
+        return
+    for first in range(1, min(maxpart, total) + 1):
+        for rest in compositions(total - first, maxpart):
+            yield [first] + rest
+
+
+def knot_order_types(p, n, clamped=True):
+    """rank sequences (order types) of valid knot vectors with n control points: clamped with every interior multiplicity pattern,
+    or unclamped with distinct knots"""
+    if clamped:
+        for comp in compositions(n - p - 1, p):
+            ranks = [0] * (p + 1)
+            r = 0
+            for mult in comp:
+                r += 1
+                ranks += [r] * mult
+            ranks += [r + 1] * (p + 1)
+            yield ranks
+    else:
+        yield list(range(n + p + 1))
+
+
+def c03_order(m, run):
+    """find_span_linear / find_span_binsearch / find_multiplicity / knotvector.check touch knots only through comparisons (and
+    differences compared with a tolerance): they are decided exactly per order type, for every real knot vector of that type"""
+    big = run.tier == 'thorough'
+    P, N = (5, 5) if big else (3, 4)
+    cases = []
+    for p in range(1, P + 1):
+        for n in range(p + 1, p + N + 1):
+            for clamped in (True, False):
+                for ranks in knot_order_types(p, n, clamped):
+                    lo, hi = ranks[p], ranks[n]
+                    pos = []
+                    dist = sorted({r for r in ranks if lo <= r <= hi})
+                    for a, b in zip(dist, dist[1:]):
+                        pos += [a, (a + b) / 2.0]
+                    pos.append(hi)
+                    for u in pos:
+                        cases.append((p, n, tuple(ranks), u))
+    tl = Tally(run, 'OT1.span-is-the-half-open-interval', 'helpers.find_span_linear',
+               'degree 1..%d x n = p+1..p+%d x every clamped interior multiplicity pattern and the distinct-knot unclamped type x every parameter on a knot or strictly between knots of the domain' % (P, N))
+    tb = Tally(run, 'OT1.span-is-the-half-open-interval', 'helpers.find_span_binsearch', tl.describe)
+    tm_ = Tally(run, 'OT2.multiplicity-count', 'helpers.find_multiplicity', tl.describe)
+    for p, n, ranks, u in cases:
+        kv = [Ord(r) for r in ranks]
+        if u == ranks[n]:
+            want = max(i for i in range(p, n) if ranks[i] < ranks[i + 1])
+        else:
+            want = [i for i in range(p, n) if ranks[i] <= u < ranks[i + 1]]
+            want = want[0] if len(want) == 1 else None
+        for t, fkey in ((tl, 'helpers.find_span_linear'), (tb, 'helpers.find_span_binsearch')):
+            def post(sk, out, want=want):
+                if out != want:
+                    raise Violation('OT1', 'returned span %r, the half-open interval containing the parameter is %r' % (out, want))
+            t.add((p, n, ranks, u), run1(m, fkey, [p, kv, n, Ord(u)], {}, post))
+        wantm = sum(1 for r in ranks if r == u)
+
+        def postm(sk, out, wantm=wantm):
+            if out != wantm:
+                raise Violation('OT2', 'returned multiplicity %r, the knot occurs %d times' % (out, wantm))
+        tm_.add((p, n, ranks, u), run1(m, 'helpers.find_multiplicity', [Ord(u), kv], {}, postm))
+    for t in (tl, tb, tm_):
+        finish(t, 'geomdl/helpers.py')
+    run.assume('order-type abstraction: distinct knots / parameters differ by more than every tolerance they are compared with (1e-5 snap of find_span_binsearch, 1e-7 of find_multiplicity)')
+    # knotvector.check over every rank sequence (including decreasing ones and wrong lengths)
+    tc = Tally(run, 'OT3.check-accepts-exactly-valid', 'knotvector.check', 'degree 1..2 x n = p+1..p+2 x every sequence over 3 ranks of length n+p, n+p+1, n+p+2')
+    for p in (1, 2):
+        for n in (p + 1, p + 2):
+            for L in (n + p, n + p + 1, n + p + 2):
+                for seq in itertools.product(range(3), repeat=L):
+                    want = (L == n + p + 1) and all(a <= b for a, b in zip(seq, seq[1:]))
+
+                    def postc(sk, out, want=want):
+                        if bool(out) != want:
+                            raise Violation('OT3', 'check returned %r, expected %r' % (out, want))
+                    tc.add((p, n, seq), run1(m, 'knotvector.check', [p, [Ord(r) for r in seq], n], {}, postc))
+    finish(tc, 'geomdl/knotvector.py')
+
+
+def explore_case(m, fkey, make_args, post, max_paths=3000):
+    def call(prefix):
+        sk = SK(m, dict(STD_ABSTRACTED))
+        sk.decisions = list(prefix)
+        try:
+            out = sk.call(m.func(fkey), make_args(), {})
+            post(sk, out)
+            return None, sk.trace
+        except Violation as v:
+            return (v.rule, '%s %s' % (v.msg, v.where())), sk.trace
+        except Unsupported as ex:
+            return ('UNSUPPORTED', str(ex)), sk.trace
+    n, first, trunc = explore(call, max_paths)
+    return n, first, trunc
+
+
+def c03_single(m, run):
+    """A2.4 / A2.5 (single basis function and its derivatives): knot comparisons decided per order type, arithmetic zero tests forked.
+    Support clause: the value is the literal 0.0 outside the half-open support [U_i, U_{i+p+1}) (with the end-of-domain
+    convention); derivative tables of order <= degree never return an untouched initial cell inside the support."""
+    P = 3 if run.tier == 'thorough' else 2
+    t1 = Tally(run, 'OT4.support-of-single-basis-function', 'helpers.basis_function_one',
+               'degree 1..%d x clamped order types with n = p+1..p+3 x every function index x every parameter position; arithmetic zero tests forked' % P)
+    t2 = Tally(run, 'OT4.support-of-single-basis-function', 'helpers.basis_function_ders_one', t1.describe + ' x order 0..degree')
+    paths = 0
+    for p in range(1, P + 1):
+        for n in range(p + 1, p + 4):
+            for ranks in knot_order_types(p, n, True):
+                L = len(ranks)
+                dist = sorted(set(ranks))
+                pos = []
+                for a, b in zip(dist, dist[1:]):
+                    pos += [a, (a + b) / 2.0]
+                pos.append(dist[-1])
+                for i in range(0, n):
+                    for u in pos:
+                        special = (i == 0 and u == ranks[0]) or (i == L - p - 2 and u == ranks[-1])
+                        inside = ranks[i] <= u < ranks[i + p + 1]
+
+                        def post1(sk, out, special=special, inside=inside):
+                            is_zero = isinstance(out, float) and out == 0.0
+                            if special:
+                                if not (isinstance(out, float) and out == 1.0):
+                                    raise Violation('OT4', 'boundary case must return 1.0, returned %r' % (out,))
+                            elif not inside and not is_zero and not (isinstance(out, Tok) and out.kind == 'PH0' and out.val == 0.0):
+                                raise Violation('OT4', 'outside the half-open support the value must be 0.0, returned %r' % (out,))
+                        npaths, first, trunc = explore_case(m, 'helpers.basis_function_one', lambda: [p, [Ord(r) for r in ranks], i, Ord(u)], post1)
+                        paths += npaths
+                        t1.add((p, tuple(ranks), i, u), None if first is None else (first[0], first[1]))
+                        if p <= 2:
+                            for order in range(0, p + 1):
+                                def post2(sk, out, inside=inside, order=order, special=special):
+                                    if len(out) != order + 1:
+                                        raise Violation('OT4', 'derivative list has %d entries for order %d' % (len(out), order))
+                                    if inside or special:
+                                        bad = [k for k, c in enumerate(out) if isinstance(c, Tok) and c.kind == 'PH0']
+                                        if bad:
+                                            raise Violation('OT4', 'derivatives %s are returned as the untouched initial fill although the parameter is inside the support' % bad)
+                                npaths, first, trunc = explore_case(m, 'helpers.basis_function_ders_one', lambda: [p, [Ord(r) for r in ranks], i, Ord(u), order], post2, 1500)
+                                paths += npaths
+                                t2.add((p, tuple(ranks), i, u, order), None if first is None else (first[0], first[1]))
+    run.extra['ot4_paths'] = paths
+    finish(t1, 'geomdl/helpers.py')
+    finish(t2, 'geomdl/helpers.py')
